@@ -48,6 +48,13 @@ def fld(name, typ, repeated=False, map_=None, presence=None):
     return f
 
 
+def required(f):
+    """google.api.field_behavior = REQUIRED (no part in the classification; the REST transport keeps a per-method table for such fields)"""
+    f = dict(f)
+    f["required"] = True
+    return f
+
+
 def with_presence(f, presence):
     f = dict(f)
     f.pop("presence", None)
@@ -114,6 +121,8 @@ def add_fields(msg, shape, file):
         t = f["type"]
         pres = f.get("presence")
         kw = {"repeated": f["repeated"]}
+        if f.get("required"):
+            kw["required"] = True
         if pres == "optional":
             kw["optional"] = True
         elif pres:
@@ -505,8 +514,9 @@ def library_api(r, transports):
         sname, stype = r.choice(size_variants)
         ikind, imk = r.choice(item_variants)
         paged_intent = r.random() < 0.85
-        req = [fld("parent", "string"), fld("filter", "string"), fld("order", "int32"), fld("tags", "string", True),
-               fld("options", "msg:" + opts.fqn), fld("view", "enum:" + view)]
+        req = [required(fld("parent", "string")) if r.random() < 0.85 else fld("parent", "string"),
+               fld("filter", "string"), required(fld("order", "int32")) if r.random() < 0.3 else fld("order", "int32"),
+               fld("tags", "string", True), fld("options", "msg:" + opts.fqn), fld("view", "enum:" + view)]
         if sname == "both":
             req += [fld("max_results", "int32"), fld("page_size", "int32")]
         else:
@@ -1118,7 +1128,8 @@ def eval_retry(ctx, D, info, i, b64, c, res, pending):
 def sequence_scenarios(r, D, info, m, kinds):
     """Multi-step sequences in which the caller OWNS a request message object and the results span >= 2 pages:
     'mutate': the caller changes its request object right after the pager was returned, then iterates;
-    'again':  the caller drains the pager, then calls the method again with the same request object.
+    'again':  the caller drains the pager, then calls the method again with the same request object;
+    'again-fresh': the caller drains the pager, then lists again in the same process with a freshly built, equal request.
     The property: follow-up requests = the ORIGINAL request with only page_token replaced; hence the pager must not
     share the caller's object, and the caller's object must not be modified by iteration."""
     item = next(f for f in m["resp"] if f["repeated"])
@@ -1133,10 +1144,10 @@ def sequence_scenarios(r, D, info, m, kinds):
     if r.random() < 0.3:
         rq.page_token = "start"
     out = []
-    for seq in ("mutate", "again"):
+    for seq in ("mutate", "again", "again-fresh"):
         n1 = r.randint(2, 4)
         h1 = [fill_page(r, D, m, r.choice([1, 2, 0, 3]), "" if k == n1 - 1 else r.choice(TOKENS), k + 1) for k in range(n1)]
-        h2 = [fill_page(r, D, m, r.choice([1, 2]), "" if k == 1 else "again-" + r.choice(TOKENS), 10 + k) for k in range(2)] if seq == "again" else []
+        h2 = [fill_page(r, D, m, r.choice([1, 2]), "" if k == 1 else "again-" + r.choice(TOKENS), 10 + k) for k in range(2)] if seq != "mutate" else []
         hist = lambda hs: [[items_of_dynamic(x, item), x.next_page_token, attrs_of_dynamic(x, attr_names[1:])] for x in hs]
         for kind in kinds:
             spec = {"service_module": info["module"], "client": info["service"] + ("AsyncClient" if kind == "grpc_asyncio" else "Client"),
@@ -1150,8 +1161,11 @@ def sequence_scenarios(r, D, info, m, kinds):
                 if "filter" in has:
                     mutation["filter"] = "changed-by-caller"
                 spec["mutate_after_create"] = mutation
-            else:
+            elif seq == "again":
                 spec["list_again"] = True
+            else:           # a second listing of the same rpc in the same process, with a FRESH request (and sometimes a fresh client)
+                spec["list_again"] = "fresh"
+                spec["fresh_client"] = r.random() < 0.5
             msgs = h1 + h2
             if kind == "rest":
                 spec["http_script"] = [{"status": 200, "body": json_format.MessageToJson(x)} for x in msgs]
@@ -1222,7 +1236,8 @@ def eval_sequence(ctx, D, info, lib_i, req_b64, call, res, checks, pending):
     if h2:
         items2 = decode((out.get("again") or {}).get("items", []), h2)
         if items2 != [x for p in h2 for x in p[0]]:
-            problems.append(f"the second listing with the same request object yielded {items2}, the server's pages hold {[x for p in h2 for x in p[0]]}")
+            how = "a fresh, equal request" if seq == "again-fresh" else "the same request object"
+            problems.append(f"the second listing of the same rpc in this process (with {how}) yielded {items2}, the server's pages hold {[x for p in h2 for x in p[0]]}")
     for p in problems[:3]:
         pending.append((None, f"{label}: {p}", case))
     # ---- model = implementation: each listing is Model.iterate from the ORIGINAL call ----
